@@ -61,7 +61,7 @@ PROPS = {
             "rule": LOCALE_RULE + " || " + LANGID_RULE},
     "C05": {"runs": lambda tier: [run("locale", ops=["loc_roundtrip", "extmap", "loc_canonicalize", "loc_hist", "loc_built"], features=["likely"]), run("langid", ops=["li_roundtrip", "li_canonicalize"])],
             "rule": LOCALE_RULE},
-    "C09": {"runs": lambda tier: [run("locale", ops=["loc_meta", "li_meta"], features=["likely"])], "rule": LOCALE_RULE},
+    "C09": {"runs": lambda tier: [run("locale", ops=["loc_meta", "li_meta", "ext_meta"], features=["likely"])], "rule": LOCALE_RULE},
     "C10": {"runs": lambda tier: [run("locale", ops=["loc_hist", "loc_conv"], features=["likely"])], "rule": LOCALE_RULE},
     "C11": {"runs": lambda tier: [run("langid", ops=["li_matches", "lang_matches"]), run("locale", ops=["loc_matches"], features=["likely"])], "rule": LOCALE_RULE},
     "C12": {"runs": lambda tier: [run("langid", ops=["li_cmp", "li_eq_str", "li_routes"], features=["likely"]), run("locale", ops=["loc_cmp"], features=["likely"])],
